@@ -7,7 +7,7 @@ EXTENDS Derive, Json
 CONSTANTS MaxFeatures, Mode
 Shapes == {"struct_named", "struct_unnamed", "struct_unit", "enum"}
 Features == {"generic", "skipped_param", "lifetime", "docs", "rename", "skip_field", "compact", "phantom", "selfref", "nested",
-             "raw_ident", "const_generic", "macro_ty", "phantom_arg", "doc_attr_form", "combined_attrs", "capture_always", "capture_never", "capture_default", "modules", "replace", "skip_variant", "codec_index", "discriminant", "encoded_as", "crate_path", "rev_attrs"}
+             "raw_ident", "const_generic", "macro_ty", "phantom_arg", "doc_attr_form", "combined_attrs", "capture_always", "capture_never", "capture_default", "modules", "replace", "skip_variant", "codec_index", "discriminant", "encoded_as", "crate_path", "rev_attrs", "foreign_attrs"}
 Excl(S) == Cardinality(S \cap {"capture_always", "capture_never", "capture_default"}) <= 1
 Plans == {<<sh, S>> : sh \in Shapes, S \in {T \in SUBSET Features : Cardinality(T) <= MaxFeatures /\ Excl(T)}}
 \* container attribute items (C20 derive half)
